@@ -105,6 +105,8 @@ type Case struct {
 	// BusyTarget: the target is inside a (held) handler of an unrelated state while the source toggles,
 	// so every forwarded call is queued on the target; released once the source has finished
 	BusyTarget bool `json:"busy_target,omitempty"`
+	// HoldEval: hold the target's queue with an Eval instead of a held handler
+	HoldEval bool `json:"hold_eval,omitempty"`
 	// ReleaseAfter (with BusyTarget): release the target after this many source steps instead of after
 	// the whole workload, so that later forwarded calls meet a target that is in the middle of an
 	// earlier forwarded transition. 0 = release at the end.
@@ -255,18 +257,25 @@ func runCase(c Case, st *ev.Stats) error {
 	}
 	hold, entered := make(chan struct{}), make(chan struct{})
 	if c.BusyTarget {
-		var once sync.Once
-		if _, err := tgt.HandlersBindMaps(nil, map[string]am.HandlerFinal{"OtherState": func(*am.Event) {
-			once.Do(func() { close(entered); <-hold })
-		}}); err != nil {
-			return err
+		if c.HoldEval || c.Bind == "BindAny" {
+			// the target's queue is held by an Eval (no state of the target changes, no transition is running)
+			tgt.EvalTimeout = time.Minute
+			go tgt.Eval("c18hold", func() { close(entered); <-hold }, context.Background())
+		} else {
+			// the target is inside a final handler of an unrelated state (a transition is running)
+			var once sync.Once
+			if _, err := tgt.HandlersBindMaps(nil, map[string]am.HandlerFinal{"OtherState": func(*am.Event) {
+				once.Do(func() { close(entered); <-hold })
+			}}); err != nil {
+				return err
+			}
+			go tgt.Add1("Other", nil)
 		}
-		go tgt.Add1("Other", nil)
 		select {
 		case <-entered:
 		case <-time.After(5 * time.Second):
 			close(hold)
-			return fmt.Errorf("setup: the target did not enter the held handler")
+			return fmt.Errorf("setup: the target did not start holding its queue")
 		}
 	}
 	var relOnce sync.Once
@@ -375,9 +384,6 @@ func runCase(c Case, st *ev.Stats) error {
 	switch c.Bind {
 	case "BindAny":
 		sa, ta := setOf(src.ActiveStates(nil)), setOf(tgt.ActiveStates(nil))
-		if c.BusyTarget {
-			delete(ta, "Other") // the harness's own holding state on the target
-		}
 		if !eqSet(sa, ta) {
 			err := fmt.Errorf("BindAny: at quiescence the target's active set %v differs from the source's %v", keys(ta), keys(sa))
 			if kf.IsKnown("C18-bindany-removals") {
@@ -515,6 +521,7 @@ func genCase(t *rapid.T) Case {
 		c.Programs = append(c.Programs, p)
 	}
 	c.BusyTarget = rapid.IntRange(0, 2).Draw(t, "busyTarget") == 0
+	c.HoldEval = c.BusyTarget && rapid.Bool().Draw(t, "holdEval")
 	if c.BusyTarget && rapid.Bool().Draw(t, "releaseEarly") {
 		c.ReleaseAfter = rapid.IntRange(1, 3).Draw(t, "releaseAfter")
 	}
